@@ -1209,6 +1209,22 @@ class Interp:
         return res.replace(const=NOCONST)
 
     def e_Compare(self, e, frame):
+        # "p" in signature(<project class>).parameters  -> decided from the constructor signature
+        if len(e.ops) == 1 and isinstance(e.ops[0], (ast.In, ast.NotIn)) and isinstance(e.left, ast.Constant) \
+                and isinstance(e.left.value, str) and isinstance(e.comparators[0], ast.Attribute) \
+                and e.comparators[0].attr == "parameters" and isinstance(e.comparators[0].value, ast.Call) \
+                and isinstance(e.comparators[0].value.func, (ast.Name, ast.Attribute)) \
+                and (e.comparators[0].value.func.id if isinstance(e.comparators[0].value.func, ast.Name)
+                     else e.comparators[0].value.func.attr) == "signature" and e.comparators[0].value.args:
+            cav = self.eval(e.comparators[0].value.args[0], frame)
+            names = {r[1] for r in cav.ref if r[0] == "cls" and str(r[1]).startswith("P:")} | \
+                    {c for c in cav.cls if str(c).startswith("P:")}
+            cis = [self.p.classes.get(str(n)[2:]) for n in names]
+            if cis and all(c is not None for c in cis):
+                has = [e.left.value in self.p.ctor_params(c) for c in cis]
+                if all(has) or not any(has):
+                    val = has[0]
+                    return AV(const=val if isinstance(e.ops[0], ast.In) else not val)
         l = self.eval(e.left, frame)
         rs = [self.eval(c, frame) for c in e.comparators]
         res = derived(l, *rs)
@@ -1352,6 +1368,9 @@ class Interp:
                 if v.items is not None:
                     for kk, vv in v.items.items():
                         if vv is not None and kk not in kwargs:
+                            if kk not in v.must_keys:
+                                # the key is set on some paths only: the callee's default applies on the others
+                                vv = vv.replace(deps=vv.deps | FS(["maybe_missing_kw"]))
                             kwargs[kk] = vv
             else:
                 kwargs[k.arg] = v
@@ -1543,13 +1562,17 @@ class Interp:
                 rest.append(v)
         kwonly = [x.arg for x in a.kwonlyargs]
         extra = {}
+        defaults = fi.defaults()
         for k, v in kwargs.items():
             if (k in pos or k in kwonly):
                 if k not in env:
+                    if "maybe_missing_kw" in v.deps and k in defaults:
+                        dv = self.eval_default(fi, defaults[k])
+                        tag = FS(["maybe_default_none"]) if dv.const is None else FS()
+                        v = join(v, dv).replace(deps=(v.deps - {"maybe_missing_kw"}) | dv.deps | tag, const=NOCONST)
                     env[k] = v
             else:
                 extra[k] = v
-        defaults = fi.defaults()
         unknown_kw = star_kw is not None and star_kw.items is None
         for n in pos + kwonly:
             if n not in env:
@@ -1827,6 +1850,9 @@ class Interp:
                 return AV(deps=FS(["global_rng"]), rng=True, nn=True)
             if seed.const is not NOCONST:
                 return AV(deps=FS(["const_seed"]), rng=True, nn=True)
+            if "maybe_default_none" in seed.deps:
+                # on some path the seed is the callee's default None: the global generator may be returned
+                return seed.replace(rng=True, const=NOCONST, nn=True, deps=seed.deps | FS(["global_rng"]))
             return seed.replace(rng=True, const=NOCONST, nn=True)
         if dotted in ALIAS_FUNCS and a0 is not None:
             cp = kwargs.get("copy")
